@@ -612,6 +612,14 @@ def lattices(tier, rng):
     yield {"cls": "integer", "shape": [2, 2], "pbc": [True]}
     yield {"cls": "triangular", "shape": [2, 2], "pbc": [True, False, True]}
     yield {"cls": "ofc", "shape": [2, 2], "pbc": [True]}
+    # ---- long thin shapes (large row/column indices at small cost: float coordinate recovery, counter loops, parity patterns far out)
+    for a, b in [[14, 2], [2, 14], [28, 1], [1, 28], [27, 2]] + ([[55, 1], [1, 55], [2, 52], [40, 3]] if thorough else []):
+        for conv in ("cols", "rows"):
+            yield {"cls": "hex", "shape": [a, b], "pbc": False, "conv": conv}
+            yield {"cls": "brick", "shape": [a, b], "pbc": False, "delete": (a + b) % 2 == 0, "conv": conv}
+        yield {"cls": "triangular", "shape": [a, b], "pbc": [a % 2 == 0, b % 2 == 1]}
+        yield {"cls": "ofc", "shape": [a, b], "pbc": [a % 2 == 0, False]}
+        yield {"cls": "integer", "shape": [a, b], "pbc": [True, b > 1]}
     # ---- random larger shapes
     nrand = 300 if thorough else 12
     hi = 12 if thorough else 9
